@@ -764,9 +764,14 @@ impl World for StreamWorld {
                 if *tag > 3 {
                     out.probe("tx.any_tag_byte");
                 }
-                // the foreign sender pushes the same input on its own stream
+                // the foreign sender pushes its own message of the same length (same AD and tag) on
+                // its own stream: whatever the two streams share, this is never the genuine packet
+                let mut fmsg = msg.clone();
+                if let Some(b) = fmsg.first_mut() {
+                    *b ^= 0x55;
+                }
                 let mut fct = vec![0u8; msg.len() + 17];
-                let _ = ss::crypto_secretstream_xchacha20poly1305_push(&mut self.foreign, &mut fct, &msg, adv.as_deref(), *tag);
+                let _ = ss::crypto_secretstream_xchacha20poly1305_push(&mut self.foreign, &mut fct, &fmsg, adv.as_deref(), *tag);
                 self.packets.push(Pkt { ct, ad: adv, msg, tag: *tag, foreign_ct: fct });
                 self.items.push(Item::Packet(self.packets.len() - 1));
             }
